@@ -314,8 +314,9 @@ Definition wtrace (fuel : nat) (ops : list wop)
    map (fun r => tree_of fuel st (VRef r)) (wusers w), ii, iu).
 
 (* copy.copy(cfg) / cfg.copy(): Python's shallow copy — a new top-level dict with
-   the SAME nested dictionaries.  Not a step of the world: it is the declared
-   exception to the isolation theorems (see Prop_C20.v, ..._shallow_copy_refuted). *)
+   the SAME nested dictionaries.  Not a step of the world (it is not one of the
+   package's construction paths); used only by the remark
+   C20_python_shallow_copy_shares in Prop_C20.v. *)
 Definition cfg_shallow (st : cstore) (root : nat) : cstore * nat :=
   match nth_error st root with
   | Some nd => (st ++ [nd], length st)
